@@ -17,7 +17,8 @@ CONSTANTS
   MaxM, MaxC,   \* mtimes 0..MaxM, contents 0..MaxC
   MaxOps,       \* bound on user operations
   MaxInv,       \* bound on invocations
-  RecordBefore  \* TRUE: input state captured before the script (repair of F3)
+  RecordBefore, \* TRUE: input state captured before the script (repair of F3)
+  GuardNoInput  \* TRUE: a target without input is never skipped (repair of F11)
 
 T == 1..NT
 Absent == [m |-> -1, c |-> -1]
@@ -34,9 +35,10 @@ VARIABLES
   scriptSaw,                \* [T -> snap] what the script of the running invocation read
   builtFrom,                \* [T -> snap or NoSnap] inputs the current outputs were produced from
   nOps, nInv,
-  skipped                   \* [T -> BOOLEAN] the last decision (observation)
+  skipped,                  \* [T -> BOOLEAN] the last decision (observation)
+  foreign                   \* [T -> BOOLEAN] the state file of t was put there by somebody else (copy of another target's)
 
-vars == <<inDecl, outDecl, inh, fs, rec, pc, cap, newrec, lastOK, scriptSaw, builtFrom, nOps, nInv, skipped>>
+vars == <<inDecl, outDecl, inh, fs, rec, pc, cap, newrec, lastOK, scriptSaw, builtFrom, nOps, nInv, skipped, foreign>>
 
 NoSnap == [p \in {} |-> Absent]
 None == [k |-> "none"]
@@ -62,28 +64,29 @@ HasInput(t) == InSet(t) # {}       \* Resources::is_empty is about declarations,
 
 Invoke(t) == /\ pc[t] = "idle" /\ nInv < MaxInv
              /\ pc' = [pc EXCEPT ![t] = "check"] /\ nInv' = nInv + 1
-             /\ UNCHANGED <<inDecl, outDecl, inh, fs, rec, cap, newrec, lastOK, scriptSaw, builtFrom, nOps, skipped>>
+             /\ UNCHANGED <<inDecl, outDecl, inh, fs, rec, cap, newrec, lastOK, scriptSaw, builtFrom, nOps, skipped, foreign>>
 
 \* env_state_has_not_changed_since_last_successful_execution; an undecodable record is dropped (storage.rs:33-50)
 Check(t) ==
   /\ pc[t] = "check"
-  /\ IF Matches(rec[t], t)
+  /\ IF (GuardNoInput => HasInput(t)) /\ Matches(rec[t], t)
      THEN /\ pc' = [pc EXCEPT ![t] = "idle"] /\ skipped' = [skipped EXCEPT ![t] = TRUE]
-          /\ UNCHANGED rec
+          /\ UNCHANGED <<rec, foreign>>
      ELSE /\ pc' = [pc EXCEPT ![t] = "delete"] /\ skipped' = [skipped EXCEPT ![t] = FALSE]
           /\ rec' = [rec EXCEPT ![t] = IF @.k \in {"garbage", "partial"} THEN None ELSE @]
+          /\ foreign' = [foreign EXCEPT ![t] = IF rec[t].k \in {"garbage", "partial"} THEN FALSE ELSE @]
   /\ UNCHANGED <<inDecl, outDecl, inh, fs, cap, newrec, lastOK, scriptSaw, builtFrom, nOps, nInv>>
 
 Delete(t) == /\ pc[t] = "delete"
              /\ rec' = [rec EXCEPT ![t] = None]
-             /\ pc' = [pc EXCEPT ![t] = "capture"]
+             /\ pc' = [pc EXCEPT ![t] = "capture"] /\ foreign' = [foreign EXCEPT ![t] = FALSE]
              /\ UNCHANGED <<inDecl, outDecl, inh, fs, cap, newrec, lastOK, scriptSaw, builtFrom, nOps, nInv, skipped>>
 
 Capture(t) == /\ pc[t] = "capture"
               /\ cap' = [cap EXCEPT ![t] = Snap(InSet(t))]
               /\ pc' = [pc EXCEPT ![t] = "script"]
               /\ scriptSaw' = [scriptSaw EXCEPT ![t] = Snap(InSet(t))]   \* the script reads when it starts
-              /\ UNCHANGED <<inDecl, outDecl, inh, fs, rec, newrec, lastOK, builtFrom, nOps, nInv, skipped>>
+              /\ UNCHANGED <<inDecl, outDecl, inh, fs, rec, newrec, lastOK, builtFrom, nOps, nInv, skipped, foreign>>
 
 \* the script: may (re)write its outputs; succeeds, fails or is cancelled
 ScriptOK(t) ==
@@ -92,13 +95,13 @@ ScriptOK(t) ==
        fs' = [p \in Paths |-> IF p \in W THEN f ELSE fs[p]]
   /\ builtFrom' = [builtFrom EXCEPT ![t] = scriptSaw[t]]
   /\ pc' = [pc EXCEPT ![t] = "compute"]
-  /\ UNCHANGED <<inDecl, outDecl, inh, rec, cap, newrec, lastOK, scriptSaw, nOps, nInv, skipped>>
+  /\ UNCHANGED <<inDecl, outDecl, inh, rec, cap, newrec, lastOK, scriptSaw, nOps, nInv, skipped, foreign>>
 
 ScriptStop(t) ==      \* non-zero exit, launch failure, or cancellation by a termination signal
   /\ pc[t] = "script"
   /\ pc' = [pc EXCEPT ![t] = "idle"]
   /\ builtFrom' = [builtFrom EXCEPT ![t] = NoSnap]       \* outputs may be half written
-  /\ UNCHANGED <<inDecl, outDecl, inh, fs, rec, cap, newrec, lastOK, scriptSaw, nOps, nInv, skipped>>
+  /\ UNCHANGED <<inDecl, outDecl, inh, fs, rec, cap, newrec, lastOK, scriptSaw, nOps, nInv, skipped, foreign>>
 
 Compute(t) ==
   /\ pc[t] = "compute"
@@ -107,32 +110,32 @@ Compute(t) ==
                                                             o |-> Snap(outDecl[t])]]
           /\ pc' = [pc EXCEPT ![t] = "write"]
      ELSE /\ pc' = [pc EXCEPT ![t] = "idle"] /\ UNCHANGED newrec      \* Ok(None): nothing is stored
-  /\ UNCHANGED <<inDecl, outDecl, inh, fs, rec, cap, lastOK, scriptSaw, builtFrom, nOps, nInv, skipped>>
+  /\ UNCHANGED <<inDecl, outDecl, inh, fs, rec, cap, lastOK, scriptSaw, builtFrom, nOps, nInv, skipped, foreign>>
 
 \* File::create + sequential serialisation: the file is first a strict prefix, then complete
 WritePartial(t) == /\ pc[t] = "write"
                    /\ rec' = [rec EXCEPT ![t] = [k |-> "partial"]]
-                   /\ pc' = [pc EXCEPT ![t] = "written"]
+                   /\ pc' = [pc EXCEPT ![t] = "written"] /\ foreign' = [foreign EXCEPT ![t] = FALSE]
                    /\ UNCHANGED <<inDecl, outDecl, inh, fs, cap, newrec, lastOK, scriptSaw, builtFrom, nOps, nInv, skipped>>
 
 WriteFull(t) == /\ pc[t] = "written"
                 /\ rec' = [rec EXCEPT ![t] = newrec[t]]
                 /\ lastOK' = [lastOK EXCEPT ![t] = newrec[t]]
-                /\ pc' = [pc EXCEPT ![t] = "idle"]
+                /\ pc' = [pc EXCEPT ![t] = "idle"] /\ foreign' = [foreign EXCEPT ![t] = FALSE]
                 /\ UNCHANGED <<inDecl, outDecl, inh, fs, cap, newrec, scriptSaw, builtFrom, nOps, nInv, skipped>>
 
 \* zinoma dies (SIGKILL, power loss): enabled in every phase
 Crash(t) == /\ pc[t] # "idle"
             /\ pc' = [pc EXCEPT ![t] = "idle"]
             /\ builtFrom' = [builtFrom EXCEPT ![t] = IF pc[t] = "script" THEN NoSnap ELSE @]
-            /\ UNCHANGED <<inDecl, outDecl, inh, fs, rec, cap, newrec, lastOK, scriptSaw, nOps, nInv, skipped>>
+            /\ UNCHANGED <<inDecl, outDecl, inh, fs, rec, cap, newrec, lastOK, scriptSaw, nOps, nInv, skipped, foreign>>
 
 \* --clean t (main.rs:72-87): state and declared outputs of t
 Clean(t) == /\ \A u \in T : pc[u] = "idle"
             /\ nOps < MaxOps /\ nOps' = nOps + 1
             /\ rec' = [rec EXCEPT ![t] = None]
             /\ fs' = [p \in Paths |-> IF p \in outDecl[t] THEN Absent ELSE fs[p]]
-            /\ builtFrom' = [builtFrom EXCEPT ![t] = NoSnap]
+            /\ builtFrom' = [builtFrom EXCEPT ![t] = NoSnap] /\ foreign' = [foreign EXCEPT ![t] = FALSE]
             /\ UNCHANGED <<inDecl, outDecl, inh, pc, cap, newrec, lastOK, scriptSaw, nInv, skipped>>
 
 -----------------------------------------------------------------------------
@@ -141,17 +144,26 @@ Clean(t) == /\ \A u \in T : pc[u] = "idle"
 UserOp ==
   /\ nOps < MaxOps /\ nOps' = nOps + 1
   /\ \E p \in Paths : \E f \in File \cup {Absent} : f # fs[p] /\ fs' = [fs EXCEPT ![p] = f]
-  /\ UNCHANGED <<inDecl, outDecl, inh, rec, pc, cap, newrec, lastOK, scriptSaw, builtFrom, nInv, skipped>>
+  /\ UNCHANGED <<inDecl, outDecl, inh, rec, pc, cap, newrec, lastOK, scriptSaw, builtFrom, nInv, skipped, foreign>>
 
 Corrupt(t) ==      \* truncated, overwritten, foreign or absurd-length state file: anything that does not decode
   /\ nOps < MaxOps /\ nOps' = nOps + 1
   /\ pc[t] = "idle" /\ rec[t].k # "garbage"
-  /\ rec' = [rec EXCEPT ![t] = [k |-> "garbage"]]
+  /\ rec' = [rec EXCEPT ![t] = [k |-> "garbage"]] /\ foreign' = [foreign EXCEPT ![t] = FALSE]
+  /\ UNCHANGED <<inDecl, outDecl, inh, fs, pc, cap, newrec, lastOK, scriptSaw, builtFrom, nInv, skipped>>
+
+\* somebody copies the (complete) state file of target u over that of target t, or an old record of t itself survives a
+\* change of t's declarations: the record decodes but was not written by a run of t as declared now
+Foreign(t) ==
+  /\ nOps < MaxOps /\ nOps' = nOps + 1 /\ pc[t] = "idle"
+  /\ \E Si \in SUBSET {p \in Paths : fs[p] # Absent}, So \in SUBSET {p \in Paths : fs[p] # Absent} :
+       rec' = [rec EXCEPT ![t] = [k |-> "full", i |-> Snap(Si), o |-> Snap(So)]]
+  /\ foreign' = [foreign EXCEPT ![t] = TRUE]
   /\ UNCHANGED <<inDecl, outDecl, inh, fs, pc, cap, newrec, lastOK, scriptSaw, builtFrom, nInv, skipped>>
 
 Next == \/ UserOp
         \/ \E t \in T : \/ Invoke(t) \/ Check(t) \/ Delete(t) \/ Capture(t) \/ ScriptOK(t) \/ ScriptStop(t)
-                        \/ Compute(t) \/ WritePartial(t) \/ WriteFull(t) \/ Crash(t) \/ Clean(t) \/ Corrupt(t)
+                        \/ Compute(t) \/ WritePartial(t) \/ WriteFull(t) \/ Crash(t) \/ Clean(t) \/ Corrupt(t) \/ Foreign(t)
 
 Init ==
   /\ inDecl \in [T -> SUBSET Paths] /\ outDecl \in [T -> SUBSET Paths]
@@ -161,7 +173,7 @@ Init ==
   /\ rec = [t \in T |-> None] /\ pc = [t \in T |-> "idle"]
   /\ cap = [t \in T |-> NoSnap] /\ newrec = [t \in T |-> None] /\ lastOK = [t \in T |-> None]
   /\ scriptSaw = [t \in T |-> NoSnap] /\ builtFrom = [t \in T |-> NoSnap]
-  /\ nOps = 0 /\ nInv = 0 /\ skipped = [t \in T |-> FALSE]
+  /\ nOps = 0 /\ nInv = 0 /\ skipped = [t \in T |-> FALSE] /\ foreign = [t \in T |-> FALSE]
 
 Spec == Init /\ [][Next]_vars
 
@@ -169,12 +181,12 @@ Spec == Init /\ [][Next]_vars
 (* Properties *)
 
 \* C05: a complete record exists only as the result of a run that succeeded and finished its write
-FullOnlyFromSuccess == \A t \in T : rec[t].k = "full" => rec[t] = lastOK[t]
+FullOnlyFromSuccess == \A t \in T : (rec[t].k = "full" /\ ~foreign[t]) => rec[t] = lastOK[t]
 
 \* C02+C06 (semantic form): whenever a target would be skipped, its outputs were built from inputs that
 \* are indistinguishable (same mtime or same content, same file set) from the current ones
 SkipMeansUpToDate ==
-  \A t \in T : (pc[t] = "idle" /\ Matches(rec[t], t) /\ \A d \in inh[t] : pc[d] = "idle")
+  \A t \in T : (pc[t] = "idle" /\ Matches(rec[t], t) /\ ~foreign[t] /\ \A d \in inh[t] : pc[d] = "idle")
                    => SnapMatches(builtFrom[t], Snap(InSet(t)))
 
 \* C03: after a complete successful run, with nothing touched, the next check skips
@@ -183,11 +195,13 @@ SkipComplete ==
                 /\ rec[t].i = Snap(InSet(t)) /\ rec[t].o = Snap(outDecl[t])) => Matches(rec[t], t)
 
 \* C03: a target without input never gets a record, hence is always executed
-NoInputNoRecord == \A t \in T : ~HasInput(t) => rec[t].k # "full"
+NoInputNoRecord == \A t \in T : (~HasInput(t) /\ ~foreign[t]) => rec[t].k # "full"
+\* ... whatever lies in its state file (action property): a skip decision is only ever taken for a target with input
+NoInputNeverSkipped == [][\A t \in T : (pc[t] = "check" /\ pc'[t] = "idle" /\ skipped'[t]) => HasInput(t)]_vars
 
 \* C18: a target's record changes only by its own runs / clean / corruption (action property)
 RecIndependent == [][\A t \in T : rec'[t] # rec[t] =>
-                        (pc[t] # "idle" \/ pc'[t] # pc[t] \/ rec'[t].k \in {"none", "garbage"})]_vars
+                        (pc[t] # "idle" \/ pc'[t] # pc[t] \/ rec'[t].k \in {"none", "garbage"} \/ foreign'[t])]_vars
 
 TypeOK == \A t \in T : rec[t].k \in {"none", "garbage", "partial", "full"}
 =============================================================================
